@@ -66,6 +66,10 @@ def holdsOf (name : Bytes) (tags : Tags) : Cond → Bool
   | .cmp k neq v =>
     let x := if k = nameKey then name else (tagGet tags k).getD []
     if neq then x ≠ v else x = v
+  | .re k neg vals =>
+    -- `=~ /^(?:v1|v2|…)$/`: the value is one of the listed ones
+    let x := if k = nameKey then name else (tagGet tags k).getD []
+    vals.contains x != neg
   | .and l r => holdsOf name tags l && holdsOf name tags r
   | .or l r => holdsOf name tags l || holdsOf name tags r
 
